@@ -327,6 +327,8 @@ pub fn gen_libpar(r: &mut Rng, idx: usize) -> LibCase {
             Ev::Eof(_) => {}
         }
     }
+    let created_order: Vec<String> =
+        events.iter().filter_map(|e| if let Ev::Create(d) = e { Some(d.clone()) } else { None }).collect();
     // files likewise: the k-th file of the glob becomes `lib/f<k>`, so that test-case names are
     // distinct by construction (the library, unlike the CLI, does not require that of the paths)
     let canon_file = |p: &str| -> String {
@@ -342,7 +344,13 @@ pub fn gen_libpar(r: &mut Rng, idx: usize) -> LibCase {
         let i = dbs.iter().position(|x| x == d).unwrap_or(usize::MAX);
         match first_owner.get(d) {
             Some(o) => format!("{}_{:08x}", to_test_case_name(&canon_file(o)), i),
-            None => format!("unused_{:08x}", i),
+            // no SQL ever arrived there (the file failed to parse, or was empty): named after the file
+            // it was created for, by creation order, so that the run can still be replayed in the
+            // driver model
+            None => match created_order.iter().position(|x| x == d).and_then(|k| files.get(k)) {
+                Some(f) => format!("{}_{:08x}", to_test_case_name(&canon_file(f)), i),
+                None => format!("unused_{:08x}", i),
+            },
         }
     };
     let mut evs = vec![];
